@@ -241,12 +241,19 @@ func Payload(r *rand.Rand, class int) []byte {
 	}
 }
 
-// Sizes draws 1-4 Read buffer sizes to be used in turn.
+// Sizes draws 1-4 Read buffer sizes to be used in turn: zero-length reads (which must neither
+// lose data nor report the end early), one byte, small primes, sizes beyond any body. At least
+// one of them is not zero.
 func Sizes(r *rand.Rand) []int {
-	pool := []int{1, 1, 2, 3, 7, 16, 100, 512, 4096, 65536}
+	pool := []int{0, 1, 1, 2, 3, 7, 13, 16, 97, 100, 512, 4096, 65536, 200003}
 	s := make([]int, 1+r.Intn(4))
+	nz := false
 	for i := range s {
 		s[i] = pool[r.Intn(len(pool))]
+		nz = nz || s[i] > 0
+	}
+	if !nz {
+		s[r.Intn(len(s))] = 1 + r.Intn(9)
 	}
 	return s
 }
